@@ -12,7 +12,7 @@ NONTRIVIAL = {'parallel', 'history-deep', 'history-shallow', 'targetless', 'inte
 
 
 def case_random(seed, dm):
-    ch, hist = c01lib.make_case(seed, dm if dm != 'promela' else 'lua')   # promela renders the same chart as lua: datamodel independence
+    ch, hist = c01lib.make_case(seed, dm)   # promela renders the same chart as lua: datamodel independence
     return ch, hist
 
 
